@@ -88,6 +88,24 @@ def extract(repo):
     if not re.search(r"isdigit\(\s*_file\.peek\(\)\s*\)", se):
         raise ValueError("seekInstanceEnd: `#` followed by a digit test not found")
 
+    # --- layout repairs: any white space ends a keyword; comments between tokens
+    gdk = _strip_comments(_body(sr, r"sectionReader::getDelimitedKeyword\s*\([^)]*\)\s*\{"))
+    if "strchr( delimiters, c )" not in gdk and "strchr(delimiters, c)" not in gdk:
+        raise ValueError("getDelimitedKeyword: delimiter test not found")
+    kw_space = bool(re.search(r"strchr\(\s*delimiters,\s*c\s*\)\s*&&\s*!isspace\(\s*c\s*\)", gdk))
+    ctor = _strip_comments(_body(p21, r"lazyP21DataSectionReader::lazyP21DataSectionReader\s*\([^{]*\{"))
+    rn0 = _strip_comments(_body(sr, r"sectionReader::readInstanceNumber\s*\(\s*\)\s*\{"))
+    places = [bool(re.search(r"--parenDepth == 0 \) \{\s*skipWSandComments\(\)", se)),
+              bool(re.search(r"buffer\[ digits \] = '\\0';\s*skipWSandComments\(\)", rn0)),
+              bool(re.search(r"skipWSandComments\(\);\s*std::streampos pos", ctor))]
+    if any(places) and not all(places):
+        raise ValueError(f"comments between tokens are skipped in some places only: {places}")
+    token_comments = all(places)
+    if token_comments:
+        swc = _strip_comments(_body(sr, r"sectionReader::skipWSandComments\s*\(\s*\)\s*\{"))
+        if 'findNormalString( "*/" )' not in swc or "skipWS()" not in swc:
+            raise ValueError("skipWSandComments: shape not recognised")
+
     # --- instanceID
     m = re.search(r"typedef\s+(\w+)\s+instanceID\s*;", types)
     if not m:
@@ -159,6 +177,10 @@ def extract(repo):
            "def seekCases : List Char := [" + ", ".join(_lean_char(c) for c in cases) + "]",
            f"def instanceIdMax : Nat := {idmax}",
            f"/-- `numeric_limits<instanceID>::digits10 + 1` -/\ndef instanceIdDigits : Nat := {digits10 + 1}",
+           "/-- `getDelimitedKeyword`: any white space ends a keyword (else `abort()`) -/",
+           f"def kwSpaceDelim : Bool := {'true' if kw_space else 'false'}",
+           "/-- comments are skipped between `)` and `;`, between the id and `=`, before `ENDSEC` -/",
+           f"def tokenComments : Bool := {'true' if token_comments else 'false'}",
            "/-- `getRealInstance` registers the instance in `_instancesLoaded` before `STEPread` -/",
            f"def cacheBeforeRead : Bool := {'true' if early else 'false'}",
            "/-- lazyRefs: a candidate whose entity has no such attribute is skipped instead of indexing `attributes[-1]` -/",
